@@ -13,6 +13,10 @@ pub mod c01;
 pub mod c02;
 pub mod c03;
 pub mod c04;
+pub mod c05;
+pub mod c06;
+pub mod c07;
+pub mod c16;
 
 /// (n1, n2, m, padded N) of a statement, by symbolic execution on RefCS.
 pub fn shape_of(st: &Statement) -> (usize, usize, usize, usize) {
@@ -61,7 +65,7 @@ pub fn gen_cap_history(rng: &mut Rng, need: usize) -> Vec<usize> {
     h
 }
 
-#[derive(Clone, Debug, Serialize, Deserialize)]
+#[derive(Clone, Debug, PartialEq, Serialize, Deserialize)]
 pub struct SessionCase {
     pub st: Statement,
     pub cap_p: Vec<usize>,
@@ -96,7 +100,7 @@ pub fn sample_of(case: &SessionCase) -> Value {
     })
 }
 
-pub const ALL: &[&str] = &["C01", "C02", "C03", "C04"];
+pub const ALL: &[&str] = &["C01", "C02", "C03", "C04", "C05", "C06", "C07", "C16"];
 
 /// Case-count scaling (selftest runs a small slice of every check).
 pub fn scaled(n: u64) -> u64 {
@@ -112,6 +116,10 @@ pub fn dispatch(prop: &str, ctx: &Ctx) -> Option<i32> {
         "C02" => Some(c02::run(ctx)),
         "C03" => Some(c03::run(ctx)),
         "C04" => Some(c04::run(ctx)),
+        "C05" => Some(c05::run(ctx)),
+        "C06" => Some(c06::run(ctx)),
+        "C07" => Some(c07::run(ctx)),
+        "C16" => Some(c16::run(ctx)),
         _ => None,
     }
 }
@@ -122,6 +130,10 @@ pub fn replay(prop: &str, case: &Value) -> Option<Vec<Violation>> {
         "C02" => Some(c02::replay(case)),
         "C03" => Some(c03::replay(case)),
         "C04" => Some(c04::replay(case)),
+        "C05" => Some(c05::replay(case)),
+        "C06" => Some(c06::replay(case)),
+        "C07" => Some(c07::replay(case)),
+        "C16" => Some(c16::replay(case)),
         _ => None,
     }
 }
